@@ -246,3 +246,145 @@ def de1_step(h):
           note='precondition: all member energies are the initial inf (SetInitialPoints family)')
 def de1_step0(h):
     _de1(h, True)
+
+
+# ============================================================================ DifferentialEvolutionSolver2
+# The map solver builds all trial vectors first, evaluates them through the user-supplied map and then selects.
+# Contract of the map (C07: the only thing the step may rely on): it returns r with r[i] == f(items[i]) for
+# every index i, whatever the order / interleaving / parallelism in which it evaluates; every item is evaluated
+# exactly once (ghost: GH.evals grows by len(items), EVALD of every item); the evaluation monitor wrapped around
+# the cost grows by one record per item.  The post-state of _Step is proved from that contract alone, hence it is a
+# function of the indexed results only.
+LOOP2A = loop(DE, 'DifferentialEvolutionSolver2._Step', 0, 'for candidate in range(self.nPop)', [
+    SHAPES,
+    'forall(0, _i_, lambda c: FIX(self.trialSolution[c]))',
+], modifies=['self.trialSolution'], name='DE2-trial-loop')
+
+TRIALS = ('forall(0, self.nPop, lambda c: trialEnergy[c] == E(self.trialSolution[c]) and FIX(self.trialSolution[c]) '
+          'and EVALD(self.trialSolution[c]))')
+LOOP2B = loop(DE, 'DifferentialEvolutionSolver2._Step', 1, 'for candidate in range(self.nPop)', [
+    SHAPES + ' and len(trialEnergy) == self.nPop',
+    TRIALS,
+    INV_MEMBERS,
+    INV_BEST,
+    INV_ORDER,
+    'self.bestEnergy <= entry(self.bestEnergy)',
+    'forall(0, self.nPop, lambda c: (self.popEnergy[c] == entry(self.popEnergy)[c] and seq_eq(self.population[c], entry(self.population)[c]))'
+    ' or (c < _i_ and self.popEnergy[c] < entry(self.popEnergy)[c] and self.popEnergy[c] == trialEnergy[c]'
+    ' and seq_eq(self.population[c], self.trialSolution[c])))',
+], modifies=['self.population', 'self.popEnergy', 'self._bestSolution', 'self._bestEnergy'], name='DE2-selection-loop')
+
+
+def _map_contract(h, sp, holder):
+    def sym(H, I, args, kwargs):
+        f, items = args[0], args[1]
+        st = I.st
+        s = holder['s']
+        NP = st.heap[s]['nPop']
+        D = st.heap[s]['nDim']
+        # precondition of the objective at every item (C03): fixed point of the constraints in force
+        pre = I.call(I.builtins['forall'], [0, NP, _Lam(lambda I_, c: I_.call(sp['FIX'], [Mo.getitem(I_, items, c)], {}))], {})
+        st.check('objective-evaluated-only-at-constrained-points', I.truth_term(pre),
+                 'every work item handed to the map is a fixed point of the constraints in force')
+        cell = st.heap[sp['GH']]
+        cell['evals'] = I.binop(__import__('ast').Add(), cell['evals'], NP)
+        ev = I.call(I.builtins['forall'], [0, NP, _Lam(lambda I_, c: I_.call(sp['EVALD'], [Mo.getitem(I_, items, c)], {}))], {})
+        st.assume(I.truth_term(ev))
+        # the evaluation monitor (wrapped around the cost) gets one record per item
+        em = st.heap[s]['_evalmon']
+        for fld in ('_x', '_y'):
+            lst = st.heap[em][fld]
+            if lst.kind == 'clist':
+                st.heap[lst] = list(st.heap[lst]) + [0.0] * (NP if isinstance(NP, int) else 0)
+            else:
+                cc = dict(st.heap[lst])
+                cc['len'] = cc['len'] + Mo.zint(NP)
+                st.heap[lst] = cc
+        # result: r[i] == E(items[i]) by index
+        if isinstance(NP, int):
+            vals = [I.call(sp['E'], [Mo.getitem(I, items, c)], {}) for c in range(NP)]
+            return st.alloc('clist', vals, name='map_result')
+        k = z3.Int(st.fresh_name('mapk'))
+        st.push(k >= 0, k < Mo.zint(NP))
+        try:
+            body = I.call(sp['E'], [Mo.getitem(I, items, SV(k, 'int'))], {})
+        finally:
+            st.pop()
+        r = st.alloc('slist', {'len': Mo.zint(NP), 'arr': z3.Lambda([k], Mo.zreal(body)), 'ek': 'real'}, name='map_result')
+        # range facts of the results (finite or +inf), for every index
+        from pyvc.values import INF
+        kk = z3.Int(st.fresh_name('mapq'))
+        sel = z3.Select(st.heap[r]['arr'], kk)
+        st.assume(z3.ForAll([kk], z3.Implies(z3.And(kk >= 0, kk < Mo.zint(NP)), z3.And(-INF < sel, sel <= INF))))
+        return r
+    return h.fn('MAP', sym=sym)
+
+
+def _Lam(f):
+    """a python-level lambda usable where the contract vocabulary expects a callable (forall/exists bodies)"""
+    from pyvc.values import Builtin
+    return Builtin('spec-lambda', lambda I_, a, k: f(I_, a[0]))
+
+
+def _de2(h, gen0):
+    sp = _spec_functions(h)
+    for k, v in sp.items():
+        h.spec(k, v, pure=k in ('E', 'FIX', 'EVALD'))
+    cb = h.choice('callback', [True, False])
+    strict = h.choice('useStrictRange', [False, True])
+    h.set_summaries(_summaries(sp, cb))
+    s, D, NP, pop, popE, best, bestE, trial, stepmon = _solver(h, 'DifferentialEvolutionSolver2', sp, gen0, strict)
+    holder = {'s': s}
+    nev = h.int('evalmon_records')
+    fc = h.field(h.field(s, '_fcalls'), 0) if False else None
+    h.assume('nev >= 0', nev=nev)
+    exs, eys = h.list_real('evalmon_x', n=nev), h.list_real('evalmon_y', inf=True, n=nev)
+    evalmon = h.obj(MON, _x=exs, _y=eys, _id=h.clist([]), _info=h.clist([]), k=None, _npts=None, label='ChiSquare')
+    h.set_field(s, '_evalmon', evalmon)
+    h.set_field(s, '_map', _map_contract(h, sp, holder))
+    env = dict(self=s)
+    if gen0:
+        h.assume('forall(0, self.nPop, lambda c: isinf(self.popEnergy[c]))', **env)
+    else:
+        h.assume(INV_MEMBERS, **env)
+        h.assume(INV_BEST, **env)
+        h.assume(INV_ORDER, **env)
+    bestE0 = bestE
+    popE0 = h.snapshot(popE)
+    pop0 = h.snapshot(pop)
+    h.call(h.getattr(s, '_Step'))
+    gh = sp['GH']
+    env.update(GH=gh, NP=NP, popE0=popE0, pop0=pop0, bestE0=bestE0, nev=nev, trial=trial)
+    h.check('C01/member-energies-are-the-objective-at-the-members', INV_MEMBERS, **env)
+    h.check('C01/best-energy-is-the-objective-at-an-evaluated-constrained-point', INV_BEST, **env)
+    h.check('C01/best-not-worse-than-any-member', INV_ORDER, **env)
+    if not gen0:
+        h.check('C04/best-energy-non-increasing', 'self.bestEnergy <= bestE0', **env)
+    h.check('C04/one-evaluation-per-member', 'GH.evals == NP', **env)
+    h.check('C04/counter-follows-the-evaluation-monitor', 'self._fcalls[0] == nev + NP', **env)
+    h.check('C04/one-step-monitor-record-of-the-best',
+            'GH.records == 1 and seq_eq(GH.rec_x_snapshot, self.bestSolution) and GH.rec_y == self.bestEnergy '
+            'and not same(GH.rec_x, self.bestSolution)', **env)
+    if cb:
+        h.check('C04/callback-once-with-the-best', 'GH.cb_calls == 1 and same(GH.cb_arg, self.bestSolution)', **env)
+    if not gen0:
+        # C08 selection + C07: the new member is the trial of the same index, accepted only if strictly lower
+        h.check('C08/member-replaced-only-by-strictly-lower-trial-of-its-own-index',
+                'forall(0, NP, lambda c: (self.popEnergy[c] == popE0[c] and seq_eq(self.population[c], pop0[c])) '
+                'or (self.popEnergy[c] < popE0[c] and seq_eq(self.population[c], trial[c]) and self.popEnergy[c] == E(trial[c])))',
+                **env)
+    h.cover('reached-end')
+
+
+@contract('C01/DE2._Step/generation>0', ['C01', 'C03', 'C04', 'C07', 'C08'], DE + '::DifferentialEvolutionSolver2._Step',
+          loops=dict([LOOP2A, LOOP2B]), native=False, small=SMALL,
+          note='precondition: Inv(self), separate cells; an evaluation monitor is attached whose length equals the counter '
+               '(the Null-monitor branch is finding F6, bounded layer); the map obeys the index contract (C07)')
+def de2_step(h):
+    _de2(h, False)
+
+
+@contract('C01/DE2._Step/generation=0', ['C01', 'C03', 'C04', 'C07'], DE + '::DifferentialEvolutionSolver2._Step',
+          loops=dict([LOOP2A, LOOP2B]), native=False, small=[dict(a, nsteps=0) for a in SMALL])
+def de2_step0(h):
+    _de2(h, True)
